@@ -100,7 +100,10 @@ def components(nodes, pairs):
 
 
 # ---- A6: linear paths and merging -----------------------------------------
-COMP = {"A": "T", "C": "G", "G": "C", "T": "A", "a": "t", "c": "g", "g": "c", "t": "a", "N": "N", "n": "n"}
+# IUPAC nucleotide codes (complement of the denoted base set); written out independently of gfapy's table
+COMP = {"A": "T", "C": "G", "G": "C", "T": "A", "U": "A", "N": "N",
+        "R": "Y", "Y": "R", "S": "S", "W": "W", "K": "M", "M": "K", "B": "V", "V": "B", "D": "H", "H": "D"}
+COMP.update({k.lower(): v.lower() for k, v in list(COMP.items())})
 
 def revcomp(s):
   return "".join(COMP.get(c, c) for c in reversed(s))
